@@ -62,6 +62,15 @@ func Audit(s *Shape, res reflect.Value, doc map[string]any, o AuditOpt) *Finding
 	return auditStruct(s.Root, res, doc, "", o)
 }
 
+func notFedClass(sig string) bool {
+	for _, p := range []string{"C05:inexact:", "C05:required-absent-accepted:", "C05:null-required-accepted:", "C05:lost:", "C05:default-not-applied:"} {
+		if strings.HasPrefix(sig, p) {
+			return true
+		}
+	}
+	return false
+}
+
 func zeroLenient(v reflect.Value) bool {
 	switch v.Kind() {
 	case reflect.Slice, reflect.Map:
@@ -127,8 +136,11 @@ func auditStruct(t *Type, rv reflect.Value, m map[string]any, path string, o Aud
 			}
 			st, sv := derefOrZero(f.T, fv)
 			if fd := auditStruct(st, sv, m, path, o); fd != nil {
-				if f.O.Optional && !strings.HasSuffix(fd.Sig, ":in-optional-embedded") {
-					fd.Sig += ":in-optional-embedded"
+				if f.O.Optional && o.Canon != nil && notFedClass(fd.Sig) {
+					// under a key-canonicalising loader (lib/conf) the fields of an optional embedded
+					// struct are looked up separately: one class, whatever the field kind
+					fd.Detail = fd.Sig + ": " + fd.Detail
+					fd.Sig = "C05:conf:optional-embedded-field-not-fed"
 				}
 				return fd
 			}
